@@ -27,7 +27,8 @@ RULE = ("random abstract DSLs (families F1-F6) with 1-2 constant-slot types comp
         "Program.all_constants_instantiation of each template (multiset), the mass of its instantiations against the "
         "template's probability, the sum over the instantiated language.  Non-trivial = some template has a constant, the "
         "instantiated language has >= 3 programs, candidates contain members and non-members.")
-ASSUMPTIONS = ["values are ints / bools / lists of those, never None; equal values are equal as Python objects with equal str()",
+ASSUMPTIONS = ["values are ints / bools / lists of those, never None; values with different str() are different constants even when Python's == "
+               "identifies them (1 and True, 0 and False are mixed in one list in some cases)",
                "float tolerance as in C04 (one extra division per instantiated rule)",
                "grammars as in C04 (finite, <= 2500 programs before instantiation); genuine TTCFGs with constant slots are built as "
                "CFG.depth_constraint(constant_types=...) * DFA counting the slots (or the leaves) used (kind cfgdfa)"]
@@ -42,6 +43,12 @@ def gen_values(rng, t):
     else:
         pool = [[0, k] for k in range(1, 7)]
     r = rng.random()
+    if rng.random() < 0.12:
+        # values equal under Python's == that are different constants (1 / True, 0 / False)
+        l = rng.choice([[[0, 1], [1, 1]], [[1, 0], [0, 0]], [[0, 1], [1, 1], [0, 2]], [[1, 1], [0, 1], [0, 0], [1, 0]]])
+        l = list(l)
+        rng.shuffle(l)
+        return l
     if r < 0.12:
         return []
     if r < 0.35:
